@@ -12,8 +12,8 @@ PROFILES = [
                             p_constraint=.5)),
     ('sel_con', .1, dict(p_incompat=.3, p_constraint=1.0, n_steps=(5, 10))),
     ('dv', .15, dict(p_incompat=.2, n_dv=(1, 3), p_dv_link=.5, n_metric=(0, 2), n_steps=(3, 8))),
-    ('conn_grp', .3, dict(p_incompat=.15, n_conn=(1, 1), p_grp=.7, p_conn_cond=.7, n_steps=(2, 6), max_sel=3,
-                          max_opts=3)),
+    ('conn_grp', .3, dict(p_incompat=.15, n_conn=(1, 1), p_grp=.7, p_conn_cond=.7, p_side_cond=.35, n_steps=(2, 6),
+                          max_sel=3, max_opts=3)),
     ('conn', .15, dict(p_incompat=.15, n_conn=(1, 2), p_grp=.2, n_steps=(2, 6), max_sel=3, max_opts=3,
                        n_dv=(0, 1))),
 ]
@@ -67,25 +67,33 @@ def check_case(sp, col, shard, seed_parts, n_ops):
         col.count('skipped_build_error')
         return
     reg = M.Registry(full_obs(b), counter=col.count)
+    reg.pair_probe = ('feasible', lambda g: bool(g.feasible))
     tap = M.MutationTap(b.name)
     reg.install()
     tap.install()
     live = []          # graphs the driver holds on to
     ops = []
     n_viol = [0]
+    reported = set()
 
     def after(op):
         ops.append(op)
         reg.settle()
         col.count('monitor_quiescent_points')
         for serial, birth, now in reg.reobserve():
-            k = first_diff(birth, now)
-            n_viol[0] += 1
-            col.violation('existing_graph_changed', sp,
-                          {'changed': k, 'object_serial': serial, 'before': birth.get(k), 'after': now.get(k),
-                           'after_op': op, 'ops': ops[-6:], 'recent_node_writes': tap.log[-6:]},
-                          flags, where={'changed': k, 'op': op[0]})
-            return True
+            keys = [k for k in birth if birth.get(k) != now.get(k)] or ['?']
+            for k in keys:
+                if k == 'deg' and 'deg' in reported:
+                    continue   # the raw shared attribute: reported once per case, the sequence goes on
+                reported.add(k)
+                n_viol[0] += 1
+                col.violation('existing_graph_changed', sp,
+                              {'changed': k, 'object_serial': serial, 'before': birth.get(k), 'after': now.get(k),
+                               'after_query_of_object': now.get('after_query_of_object'),
+                               'after_op': op, 'ops': ops[-6:], 'recent_node_writes': tap.log[-6:]},
+                              flags, where={'changed': k, 'op': op[0]})
+            if [k for k in keys if k != 'deg']:
+                return True
         return False
 
     try:
